@@ -142,5 +142,103 @@ def diff_detail(case, specs, other, b, plan_a, plan_b, files):
     return ' ## '.join(sorted(kinds))[:90] if kinds else 'not-reproduced-on-rerun'
 
 
+# ---------------------------------------------------------------------------------------
+# histories: a generated sequence of (spec, backend) runs inside one process; every step must
+# produce the bytes a fresh process produces for the same (spec, backend, whitelist)
+
+def revised(api):
+    """A later revision of the same spec: same names, some structs gain an optional field of a new type."""
+    import copy
+    api2 = copy.deepcopy(api)
+    for n in api2['namespaces']:
+        structs = [d for d in n['defs'] if d['k'] == 'struct']
+        names = {M.canon(d['name']) for d in n['defs'] if 'name' in d} | {M.canon(n['name'])}
+        if not structs or 'zzrevision' in names:
+            continue
+        n['defs'].append({'k': 'struct', 'name': 'ZzRevision', 'parent': None, 'doc': None, 'fields': [
+            {'name': 'zz_note', 'type': M.prim('String'), 'doc': None, 'default': None, 'annots': []}],
+            'subtypes': None, 'examples': [], 'patch': 0})
+        for d in structs[::2]:
+            taken = {f['name'] for f in d['fields']}
+            if 'zz_revision' not in taken:
+                d['fields'].append({'name': 'zz_revision', 'type': ('nullable', ('ref', n['name'], 'ZzRevision')),
+                                    'doc': None, 'default': None, 'annots': []})
+    return api2
+
+
+FAMILIES = [[b for b in backends.ALL if b.startswith(p)] for p in ('python', 'js_', 'tsd_', 'swift', 'obj_c')] + \
+    [[b for b in backends.ALL if b.startswith(('swift', 'obj_c'))], [b for b in backends.ALL if b.startswith(('js_', 'tsd_'))]]
+
+
+@st.composite
+def history_cases(draw):
+    kw = dict(C12_CFG)
+    api = draw(gen.api_models(gen.Cfg(**kw)))
+    other = draw(gen.api_models(gen.Cfg(schema='swift', max_ns=2, max_types=4, route_io_any=False)))
+    idx = M.Index(api)
+    wl = None
+    routes = list(idx.routes())
+    if routes and draw(st.integers(0, 2)) == 0:
+        rw = {}
+        for ns, r in routes:
+            if draw(st.booleans()):
+                rw.setdefault(ns, []).append(r['name'] if r['version'] == 1 else '%s:%d' % (r['name'], r['version']))
+        wl = {'route_whitelist': rw, 'datatype_whitelist': {}}
+    # state that leaks between runs lives in one backend module or in helpers shared by a family
+    fam = draw(st.sampled_from(FAMILIES))
+    pool = draw(st.lists(st.sampled_from(fam), min_size=1, max_size=min(3, len(fam)), unique=True))
+    script = []
+    for _ in range(draw(st.integers(4, 12))):
+        script.append([draw(st.sampled_from([0, 0, 1, 2, 2])), draw(st.sampled_from(pool)),
+                       draw(st.sampled_from(['out', 'out', 'x/y'])), bool(wl) and draw(st.booleans())])
+    return {'api': api, 'other': other, 'whitelist': wl, 'script': script, 'seed': draw(st.integers(0, 4000))}
+
+
+def run_histories(case, rec):
+    api = case['api']
+    try:
+        api2 = revised(api)
+        sets = [render.render(api)[0], render.render(api2)[0], render.render(case['other'])[0]]
+    except Exception as e:
+        raise core.HarnessError('C12 histories: cannot render: %r' % (e,))
+    for sp in sets[:2]:
+        kind, payload = front.compile_specs(sp)
+        if kind != 'api':
+            rec.note('not_accepted(judged by C01/C03)')
+            return
+    wl = case['whitelist']
+    script = [list(s) for s in case['script']]
+    base_job = {'repo': REPO, 'verif': VERIF_DIR, 'spec_sets': sets, 'whitelist': wl}
+    res, err = run_worker(dict(base_job, script=script), case['seed'])
+    if res is None:
+        raise core.HarnessError('C12 worker died: %s' % err)
+    steps = res['steps']
+    fresh = {}
+    for i, st_ in enumerate(script):
+        key = (st_[0], st_[1], st_[3])
+        if key not in fresh:
+            r, err = run_worker(dict(base_job, script=[st_]), case['seed'])
+            if r is None:
+                raise core.HarnessError('C12 worker died: %s' % err)
+            fresh[key] = r['steps'][0]
+        earlier = [(s[0], s[1]) for s in script[:i]]
+        ctx_kind = ('same-backend-earlier' if any(b == st_[1] for _, b in earlier) else 'other-backends-earlier') + \
+            ('|same-spec-earlier' if any(x == st_[0] for x, _ in earlier) else '') + \
+            ('|revision-earlier' if st_[0] in (0, 1) and any(x == 1 - st_[0] for x, _ in earlier) else '')
+        rec.case(core.h64((repr(sets), repr(script[:i + 1]), repr(wl))), i >= 1,
+                 classes=['hist_backend:' + st_[1], 'hist_ctx:' + ctx_kind.split('|')[0]] +
+                 (['hist_revision_earlier'] if 'revision-earlier' in ctx_kind else []) + (['hist_whitelist'] if st_[3] else []),
+                 sample=lambda: {'script': script[:i + 1], 'files': [(p, t[:200]) for p, t in sets[0][:1]]})
+        if steps[i] != fresh[key]:
+            files = sorted(k for k in set(steps[i]) | set(fresh[key]) if steps[i].get(k) != fresh[key].get(k))
+            rec.violation('C12|differs|%s|history:sequence|%s' % (st_[1], ctx_kind),
+                          'backend %s wrote different bytes for %s at step %d of the history %r than in a fresh process' % (
+                              st_[1], files[:3], i, script[:i + 1]),
+                          case=dict(case, script=script[:i + 1]),
+                          human={'spec_sets': sets, 'script': script[:i + 1], 'differing': files[:5]})
+            break
+
+
 def parts(ctx):
-    return [Part('determinism', run, strategy=cases(), n=ctx.n(24, 400), budget_s=ctx.n(200, 3000))]
+    return [Part('determinism', run, strategy=cases(), n=ctx.n(24, 400), budget_s=ctx.n(200, 3000)),
+            Part('histories', run_histories, strategy=history_cases(), n=ctx.n(192, 3000), budget_s=ctx.n(150, 3000))]
